@@ -1,8 +1,11 @@
 package support
 
+import "sync"
+
 type Supporter struct {
 	progress int  // The progress of the analysis
 	stop     bool // If the analysis is stoped
+	mu       sync.Mutex
 }
 
 // Returns the progress of the analysis
@@ -15,21 +18,29 @@ func NewSupporter() *Supporter {
 
 // Returns the progress of the analysis
 func (sup *Supporter) Progress() int {
+	sup.mu.Lock()
+	defer sup.mu.Unlock()
 	return sup.progress
 }
 
 // Increments the progress of the analysis
 func (sup *Supporter) IncrementProgress() {
+	sup.mu.Lock()
 	sup.progress++
+	sup.mu.Unlock()
 }
 
 // Tells the supported to stop the analysis
 // It will just finish the current computations
 func (sup *Supporter) Cancel() {
+	sup.mu.Lock()
 	sup.stop = true
+	sup.mu.Unlock()
 }
 
 // Tells if hasbeen canceled or not
 func (sup *Supporter) Canceled() bool {
+	sup.mu.Lock()
+	defer sup.mu.Unlock()
 	return sup.stop
 }
